@@ -1212,6 +1212,9 @@ impl Driver {
         }
         let ret = match &ff.sig.output {
             ReturnType::Default => Ty::Unit,
+            // `fn f(&mut self, ..) -> &mut Self { ..; self }`: the returned reference is `self` itself (checked at translation):
+            // the result is the new self alone, the call has type ()
+            ReturnType::Type(_, t) if self_kind == SelfKind::Mut && tokens_nospace(&**t) == "&mutSelf" => Ty::Unit,
             ReturnType::Type(_, t) => {
                 // `Self::Output` of operator impls
                 let so = tokens_nospace(&**t);
@@ -1478,7 +1481,21 @@ impl Driver {
         }
         let ret = info.ret.clone();
         let env_top = env.clone();
-        let body = match tr.stmts_k(&ff.block.stmts, &env, Some(&ret), &|tr, v| tr.finish(v, &env_top)) {
+        let returns_self_ref = matches!(&ff.sig.output, ReturnType::Type(_, t) if info.self_kind == SelfKind::Mut && tokens_nospace(&**t) == "&mutSelf");
+        let stmts: &[Stmt] = if returns_self_ref {
+            // the body must end in the expression `self` (and must not `return` anything else)
+            match ff.block.stmts.last() {
+                Some(Stmt::Expr(Expr::Path(p), None)) if p.path.is_ident("self") => {}
+                _ => return Err((format!("{} `{}`: a `-> &mut Self` method whose body does not end in `self`", job.file, info.key), false)),
+            }
+            if tr.effects_stmts(&ff.block.stmts).ret {
+                return Err((format!("{} `{}`: a `-> &mut Self` method with early returns / loops", job.file, info.key), false));
+            }
+            &ff.block.stmts[..ff.block.stmts.len() - 1]
+        } else {
+            &ff.block.stmts
+        };
+        let body = match tr.stmts_k(stmts, &env, Some(&ret), &|tr, v| tr.finish(v, &env_top)) {
             Ok(b) => b,
             Err(e) => return Err((e, tr.needs_fuel)),
         };
